@@ -184,6 +184,8 @@ def erasedBy (s : State) (e : Ev) : List Nat :=
   | some i => if live s.heap i && i < s.heap.size then unlockErased s.heap i else []
   | none => match e with
     | .gcDrop i => if live s.heap i && i < s.heap.size && !held s.heap i then [i] else []
+    -- nn/params.py `_propagate_unlock` is `@erase_cache` too: the wrapper's own cache (the content is not visited)
+    | .unlockShallow i => if live s.heap i && i < s.heap.size then [i] else []
     | _ => []
 
 def bindLeaf (n : LNode) (k : String) (obj : Nat) : LNode :=
